@@ -118,11 +118,10 @@ func ruleRC3() Rule {
 					if !gd.pos {
 						continue
 					}
-					s := exprStr(gd.cond)
-					if strings.Contains(s, "len(l.word) == 1") {
+					if isLenFieldEq(info, gd.cond, "parser", "lexer", "word", 1) {
 						one = true
 					}
-					if id, isID := ast.Unparen(gd.cond).(*ast.Ident); isID && id.Name == "ok" {
+					if okVarOfAssert(c.P, f, gd.cond, "*ast.Lit") {
 						lit = true
 					}
 				}
@@ -277,7 +276,7 @@ func ruleRC4() Rule {
 						}
 					}
 					names := []string{tokName}
-					if tokName == "tok" {
+					if tokName != "" && !isConstName(info, g, tokName) {
 						// emit(tok) under case labels
 						names = nil
 						if cc := enclosingCase(c.P, call); cc != nil {
@@ -327,8 +326,10 @@ func ruleRC5() Rule {
 				if fo == nil {
 					return false
 				}
-				switch fo.Name() {
-				case "scanToken", "scanRawToken", "scanRedir":
+				switch c.P.FuncOf(fo) {
+				case nil:
+					return false
+				case c.fn("parser.(*lexer).scanToken"), c.fn("parser.(*lexer).scanRawToken"), c.fn("parser.(*lexer).scanRedir"):
 					return true
 				}
 				return false
@@ -662,7 +663,21 @@ func ruleHD() Rule {
 					// comparison of a printed candidate with the delimiter string
 					isDelim := func(e ast.Expr) bool {
 						id, ok := ast.Unparen(e).(*ast.Ident)
-						return ok && id.Name == "delim" && info.Types[e].Type != nil && info.Types[e].Type.String() == "string"
+						if !ok || info.Types[e].Type == nil || info.Types[e].Type.String() != "string" {
+							return false
+						}
+						obj := info.Uses[id]
+						// a string parameter of the enclosing literal, or a local bound to the printed delimiter
+						if g.Lit != nil && g.Type.Params != nil {
+							for _, fld := range g.Type.Params.List {
+								for _, nm := range fld.Names {
+									if info.Defs[nm] == obj {
+										return true
+									}
+								}
+							}
+						}
+						return boundToCallOf(c, f, obj, c.fn("parser.(*lexer).print"))
 					}
 					if !isDelim(be.Y) && !isDelim(be.X) {
 						return true
@@ -732,47 +747,62 @@ func ruleHD() Rule {
 			if !foundCmp {
 				rr.Unk(f, f.Name+"|delimiter test", f.Pos(), "no comparison with the delimiter string found")
 			}
-			// HD2
+			// HD2: the flag is the boolean local whose negation guards the interpreting calls
 			info := f.Info()
 			var quotedObj types.Object
-			f.OwnNodes(func(n ast.Node) bool {
-				if vs, ok := n.(*ast.ValueSpec); ok {
-					for _, nm := range vs.Names {
-						if nm.Name == "quoted" {
-							quotedObj = info.Defs[nm]
-						}
-					}
+			interpFns := map[*core.Func]string{}
+			for _, n := range []string{"parser.(*lexer).scanParamExp", "parser.(*lexer).scanCmdSubst", "parser.(*lexer).esc"} {
+				if g := c.fn(n); g != nil {
+					interpFns[g] = g.Short
 				}
-				return true
-			})
-			if quotedObj == nil {
-				rr.Unk(f, f.Name+"|quoted flag", f.Pos(), "no `quoted` flag in lexHeredoc")
-				return
 			}
-			interp := map[string]bool{"scanParamExp": true, "scanCmdSubst": true, "esc": true}
+			type icall struct {
+				call *ast.CallExpr
+				name string
+			}
+			var icalls []icall
 			f.OwnNodes(func(n ast.Node) bool {
 				call, ok := n.(*ast.CallExpr)
 				if !ok {
 					return true
 				}
 				fo := core.StaticCallee(info, call)
-				if fo == nil || !interp[fo.Name()] {
+				if fo == nil {
 					return true
 				}
-				key := f.Name + "|" + fo.Name() + " under !quoted"
-				ok = false
-				for _, gd := range guardsOf(c.P, call, nil) {
-					if id, isID := ast.Unparen(gd.cond).(*ast.Ident); isID && info.Uses[id] == quotedObj && !gd.pos {
+				if nm, ok := interpFns[c.P.FuncOf(fo)]; ok {
+					icalls = append(icalls, icall{call, nm})
+					for _, gd := range guardsOf(c.P, call, nil) {
+						if id, isID := ast.Unparen(gd.cond).(*ast.Ident); isID && !gd.pos {
+							if v, isVar := info.Uses[id].(*types.Var); isVar && v.Type().String() == "bool" && quotedObj == nil {
+								quotedObj = v
+							}
+						}
+					}
+				}
+				return true
+			})
+			if len(icalls) == 0 {
+				rr.Unk(f, f.Name+"|quoted flag", f.Pos(), "the body reader calls none of scanParamExp / scanCmdSubst / esc")
+				return
+			}
+			for _, ic := range icalls {
+				key := f.Name + "|" + ic.name + " under !quoted"
+				ok := false
+				for _, gd := range guardsOf(c.P, ic.call, nil) {
+					if id, isID := ast.Unparen(gd.cond).(*ast.Ident); isID && quotedObj != nil && info.Uses[id] == quotedObj && !gd.pos {
 						ok = true
 					}
 				}
 				if ok {
-					rr.OK(f, key, call.Pos(), "unquoted-only", "expansions in the body are scanned only when no part of the delimiter was quoted")
+					rr.OK(f, key, ic.call.Pos(), "unquoted-only", "expansions in the body are scanned only when no part of the delimiter was quoted")
 				} else {
-					rr.Bad(f, key, call.Pos(), "the body is scanned for expansions without testing that the delimiter was unquoted: a here-document with a quoted delimiter is not kept literal")
+					rr.Bad(f, key, ic.call.Pos(), "the body is scanned for expansions without testing that the delimiter was unquoted: a here-document with a quoted delimiter is not kept literal")
 				}
-				return true
-			})
+			}
+			if quotedObj == nil {
+				return
+			}
 			nset := 0
 			f.OwnNodes(func(n ast.Node) bool {
 				as, ok := n.(*ast.AssignStmt)
@@ -843,4 +873,41 @@ func neverWord(c *Ctx, info *types.Info, e ast.Expr) bool {
 		return true
 	})
 	return ok && n > 0
+}
+
+// isConstName reports whether the printed argument names a constant.
+func isConstName(info *types.Info, f *core.Func, name string) bool {
+	found := false
+	f.OwnNodes(func(n ast.Node) bool {
+		if e, ok := n.(ast.Expr); ok && exprStr(e) == name {
+			if tv, ok := info.Types[e]; ok && tv.Value != nil {
+				found = true
+			}
+		}
+		return true
+	})
+	return found
+}
+
+// boundToCallOf reports whether obj is a local assigned from a call of g
+// somewhere in f (or its literals).
+func boundToCallOf(c *Ctx, f *core.Func, obj types.Object, g *core.Func) bool {
+	if obj == nil || g == nil {
+		return false
+	}
+	found := false
+	info := f.Info()
+	ast.Inspect(f.Root().Body, func(n ast.Node) bool {
+		as, ok := n.(*ast.AssignStmt)
+		if !ok || len(as.Lhs) != len(as.Rhs) {
+			return true
+		}
+		for i, l := range as.Lhs {
+			if id, ok := l.(*ast.Ident); ok && (info.Defs[id] == obj || info.Uses[id] == obj) && c.callsFunc(info, as.Rhs[i], g) {
+				found = true
+			}
+		}
+		return true
+	})
+	return found
 }
